@@ -67,6 +67,18 @@ def tcLossyShort (T : IntTy) (e : Int) (radix : Nat) (rep : Int) : Bool :=
       (let (num, den) := exactFrac rep.natAbs radix e; tcShortExpansion num den)
   | _ => false
 
+/-- `to_chars_static<Base>` lines: the text denotes the value, the rest of the array is NULs -/
+def c14Fixb (m tag cls br : String) (base : Nat) (v : Int) (res : String) : Option Verdict :=
+  let spec : Option Bool := match res.splitOn ":" with
+    | n :: rest@(_ :: _) =>
+      let arr := tcDecChars (":".intercalate rest).toList
+      match n.toNat? with
+      | some n => some (tcIntDenotes base v (arr.take n) && (arr.drop n).all (· == Char.ofNat 0) && decide (arr.length > n))
+      | none => none
+    | _ => none    -- no text produced: C13's concern
+  let mn := tag == "most_negative_integer"
+  some { model := m, spec := if mn then some false else spec, cls := if mn then cls else "", branch := br, nontrivial := spec.isSome }
+
 def checkC14 (toks : List String) (res : String) : Option Verdict := do
   let (m, tag, br) ← evalCharconv toks
   let cls := if tag.isEmpty then "" else "C14." ++ tag
@@ -87,17 +99,14 @@ def checkC14 (toks : List String) (res : String) : Option Verdict := do
     let cls := if cls.isEmpty && tcLossyShort T e x rep then "C14.lossy_rescaling_of_short_expansion" else cls
     some { model := m, spec := spec, cls := cls, branch := br, nontrivial := spec.isSome }
   | ["cap", _] => some { model := m, spec := none, branch := br, nontrivial := false }
+  | ["capb", _, _] => some { model := m, spec := none, branch := br, nontrivial := false }
+  | ["capwb", _, _, _] => some { model := m, spec := none, branch := br, nontrivial := false }
+  | ["fixbw", d, base, name] =>
+    let d ← d.toNat?; let base ← base.toNat?; let v ← tcWideVal d name
+    c14Fixb m tag cls br base v res
   | ["fixb", _, base, v] =>
     let base ← base.toNat?; let v ← v.toInt?
-    let spec : Option Bool := match res.splitOn ":" with
-      | n :: rest@(_ :: _) =>
-        let arr := tcDecChars (":".intercalate rest).toList
-        match n.toNat? with
-        | some n => some (tcIntDenotes base v (arr.take n) && (arr.drop n).all (· == Char.ofNat 0) && decide (arr.length > n))
-        | none => none
-      | _ => none    -- no text produced: C13's concern
-    let mn := tag == "most_negative_integer"
-    some { model := m, spec := if mn then some false else spec, cls := if mn then cls else "", branch := br, nontrivial := spec.isSome }
+    c14Fixb m tag cls br base v res
   | ["fix", t, v] =>
     let v ← v.toInt?
     let k ← parseTcTyK t
